@@ -110,6 +110,9 @@ type family struct {
 	// history: additionally run all first-rule inputs of a case on ONE reused instance (Buffer=in; Reset(); Parse())
 	// under these configs and require every step to equal the fresh-instance result
 	history []string
+	// reinit: the same histories once more with Init(options...) called again between the inputs instead of Reset()
+	// (the other way of reusing a parser object; every parse after an Init is a parse the properties speak about)
+	reinit bool
 	// pairs: under these configs, consecutive first-rule inputs run on TWO instances initialised from the same option
 	// values (Size 64); the first instance is inspected only after the second has parsed
 	pairs []string
@@ -322,6 +325,10 @@ func (f *family) runBatch(peg string, cases []*gcase, vs []variant, bno int) {
 			hentries[ci] = idx
 			hwhere[hkey{ci, cfi}] = len(reqs)
 			reqs = append(reqs, corpus.Req{Pkg: pkgName(cs.id, cf.v), Mode: "history", Entry: -1, Hist: hb, Memo: cf.memo, Size: cf.size, U: cf.u, Pretty: cf.pretty, NoExec: f.noexec})
+			if f.reinit {
+				hwhere[hkey{ci, cfi + 1000}] = len(reqs)
+				reqs = append(reqs, corpus.Req{Pkg: pkgName(cs.id, cf.v), Mode: "history", Entry: -1, Hist: hb, Memo: cf.memo, Size: cf.size, U: cf.u, Pretty: cf.pretty, NoExec: f.noexec, Reinit: true})
+			}
 		}
 	}
 	type pkey struct{ ci, cfi, ea, eb int }
@@ -546,7 +553,11 @@ func (f *family) runBatch(peg string, cases []*gcase, vs []variant, bno int) {
 	for hk, ri := range hwhere {
 		hr := results[ri]
 		cs := cases[hk.ci]
-		cf := f.configs[hk.cfi]
+		cf := f.configs[hk.cfi%1000]
+		if hk.cfi >= 1000 {
+			cf.name += "+reinitialised"
+			f.c.run.Count("histories_with_Init_called_again_between_inputs", 1)
+		}
 		if hr.Lost {
 			continue
 		}
@@ -572,7 +583,7 @@ func (f *family) runBatch(peg string, cases []*gcase, vs []variant, bno int) {
 			}
 		}
 		for k, ei := range hentries[hk.ci] {
-			fi, ok := where[key{hk.ci, ei, hk.cfi}]
+			fi, ok := where[key{hk.ci, ei, hk.cfi % 1000}]
 			if !ok || results[fi].Lost {
 				continue
 			}
